@@ -36,28 +36,25 @@ class PyCodec:
 
     def fill(self, obj, t, v):
         for f in t.fields:
-            self._set(obj, f.name, f.type, v[str(f.num)])
+            self._set(obj, f.name, f.type, v[str(f.num)], True)
 
-    def _set(self, holder, name, t, v):
+    def _set(self, holder, key, t, v, attr):
+        """Assign value v of type t to holder.key (attr) or holder[key] (list slot)."""
+        while t.kind == "alias":
+            t = t.target
         k = t.kind
-        if k == "alias":
-            return self._set(holder, name, t.target, v)
         if k == "message":
-            self.fill(getattr(holder, name), t, v)
+            self.fill(getattr(holder, key) if attr else holder[key], t, v)
         elif k == "array":
-            lst = getattr(holder, name)
-            et = t.elem
-            while et.kind == "alias":
-                et = et.target
+            lst = getattr(holder, key) if attr else holder[key]
             for i in range(t.cap):
-                if et.kind == "message":
-                    self.fill(lst[i], et, v[i])
-                else:
-                    lst[i] = bool(v[i]) if et.kind == "bool" else int(v[i])
-        elif k == "bool":
-            setattr(holder, name, bool(v))
+                self._set(lst, i, t.elem, v[i], False)
         else:
-            setattr(holder, name, int(v))
+            x = bool(v) if k == "bool" else int(v)
+            if attr:
+                setattr(holder, key, x)
+            else:
+                holder[key] = x
 
     def read(self, obj, t):
         return {str(f.num): self._get(getattr(obj, f.name), f.type) for f in t.fields}
@@ -110,7 +107,7 @@ def first_diff(a, b, path=""):
 def field_after_growth(ts, tr) -> dict:
     """Structural probes for one (sender type, receiver type) pair: is there an
     S_r field / element located after a region that grew? (Then the skip decides.)"""
-    probes = {"after_grown_message": False, "after_grown_array": False, "grown_array_of_grown_messages": False, "max_growth_depth": 0}
+    probes = {"after_grown_message": False, "after_grown_array": False, "grown_array_of_grown_messages": False, "grown_array_of_grown_arrays": False, "max_growth_depth": 0}
 
     def grew(s, r):
         return sg.nbits(s) != sg.nbits(r)
@@ -144,7 +141,10 @@ def field_after_growth(ts, tr) -> dict:
             ge = rec(s.elem, r.elem, depth + 1)
             gc = s.cap > r.cap
             if gc and ge:
-                probes["grown_array_of_grown_messages"] = True
+                et = r.elem
+                while et.kind == "alias":
+                    et = et.target
+                probes["grown_array_of_grown_arrays" if et.kind == "array" else "grown_array_of_grown_messages"] = True
             if ge and r.cap > 1:
                 probes["after_grown_message"] = True  # element k+1 follows grown element k
             if gc or ge:
@@ -319,7 +319,7 @@ class Fleet:
                     if key not in structural:
                         structural[key] = field_after_growth(self.roots[s], self.roots[r])
                     pr = structural[key]
-                    for name in ("after_grown_message", "after_grown_array", "grown_array_of_grown_messages"):
+                    for name in ("after_grown_message", "after_grown_array", "grown_array_of_grown_messages", "grown_array_of_grown_arrays"):
                         if pr[name]:
                             self.probes[name] = self.probes.get(name, 0) + 1
                     if pr["max_growth_depth"] >= 3:
